@@ -151,7 +151,13 @@ func (r rasterImage) isImage() {}
 
 func (r rasterImage) GetIntrinsicSize(imageResolution, _ pr.Float) (width, height, ratio pr.MaybeFloat) {
 	// Raster images are affected by the "image-resolution" property.
-	return r.intrinsicWidth / imageResolution, r.intrinsicHeight / imageResolution, r.intrinsicRatio
+	width, height = r.intrinsicWidth/imageResolution, r.intrinsicHeight/imageResolution
+	if r.intrinsicWidth == 0 || r.intrinsicHeight == 0 {
+		// an image with an empty dimension has no ratio : using 0 or +Inf
+		// to deduce a dimension from the other one gives NaN or infinite sizes
+		return width, height, nil
+	}
+	return width, height, r.intrinsicRatio
 }
 
 func (r rasterImage) Draw(context backend.Canvas, _ text.TextLayoutContext, concreteWidth, concreteHeight pr.Fl, imageRendering string) {
